@@ -3,6 +3,8 @@ package main
 import (
 	"fmt"
 	"go/ast"
+	"go/constant"
+	"go/token"
 	"go/types"
 )
 
@@ -20,6 +22,25 @@ type wrapSpec struct {
 
 func ruleWrap(c *Ctx) {
 	p := c.P
+	// the mode every default-mode operation starts with: nearest-even (the properties say "nearest-even
+	// unless changed"); a declaration without an initialiser is the zero value
+	{
+		want, okW := p.pkgConst("ToNearestEven")
+		init := p.pkgVarInit("DefaultRoundingMode")
+		var got constant.Value
+		if init != nil {
+			got = p.constOf(init)
+		} else if o, ok := p.Pkg.Types.Scope().Lookup("DefaultRoundingMode").(*types.Var); ok && o != nil {
+			got = constant.MakeInt64(0)
+		}
+		props := []string{"C01", "C02", "C03", "C05", "C09", "C10", "C11", "C16", "C17", "C18"}
+		if !okW || got == nil {
+			c.undecided("default.mode", nil, "DefaultRoundingMode's initial value (or the constant ToNearestEven) was not found", props...)
+		} else {
+			c.check(constant.Compare(constant.ToInt(got), token.EQL, constant.ToInt(want)), "default.mode", init, "DefaultRoundingMode starts as ToNearestEven",
+				"DefaultRoundingMode is initialised to "+got.ExactString()+", not to ToNearestEven ("+want.ExactString()+"): Parse, New, FromFloat64, FromInt and every operation without an explicit mode must round to nearest-even unless the program changes the variable", props...)
+		}
+	}
 	// k resolves a named package constant to its canonical constant form; the
 	// oracle (property text / doc comment) names the constant, not its value.
 	missing := false
